@@ -319,8 +319,12 @@ Section WithVerify.
   Definition ban_le (a b : smap) : Prop :=
     forall k g, smap_get k a = Some g -> g_banned g = true ->
                 exists g', smap_get k b = Some g' /\ g_banned g' = true.
-  (* an entry is unchanged or has become banned *)
-  Definition entry_le (a b : smap) : Prop :=
+  (* an entry is unchanged, or the entry now stored for the key is a banned one *)
+  Definition entry_keep (a b : smap) : Prop :=
+    forall k g, smap_get k a = Some g ->
+                exists g', smap_get k b = Some g' /\ (g' = g \/ g_banned g' = true).
+  (* the strict reading: unchanged, or it was not banned and now is *)
+  Definition entry_le_strict (a b : smap) : Prop :=
     forall k g, smap_get k a = Some g ->
                 exists g', smap_get k b = Some g' /\ (g' = g \/ (g_banned g = false /\ g_banned g' = true)).
 
@@ -332,6 +336,83 @@ Section WithVerify.
   Definition cstate_wf (st : cstate) : Prop :=
     length (c_gca st) = 32%nat /\ 0 <= c_id st < 2^32 /\ smap_wf (c_servers st).
 End WithVerify.
+
+(* ---------------------------------------------------------------- vocabulary of the theorems *)
+(* Go: !(now+24*3600 < signingTime || now-24*3600 > signingTime) on uint64 *)
+Definition fresh (now st : Z) : bool :=
+  negb ((u64 (u64 now + 86400) <? st) || (st <? u64 (u64 now - 86400))).
+(* who must have signed the server entries of a reply *)
+Definition who_signs (gkey ng : bytes) : bytes := if is_blank ng then gkey else ng.
+(* a server the client may contact *)
+Definition usable (m : smap) (k : bytes) : Prop := exists g, smap_get k m = Some g /\ g_banned g = false.
+(* what the client must extract from the genuine reply for a view *)
+Definition view_result (v : sview) : parsed :=
+  {| p_offset := sv_offset v; p_bitfield := bitfield_of (sv_powers v);
+     p_newgca := match sv_mig v with Some m => mg_newgca m | None => blank_key end;
+     p_newid := match sv_mig v with Some m => mg_newid m | None => 0 end;
+     p_servers := match sv_mig v with Some m => mg_servers m | None => sv_servers v end |}.
+
+Section Vocabulary.
+  Variable verify : bytes -> bytes -> bytes -> bool.
+
+  (* the signatures a genuine view carries *)
+  Definition view_signed (gkey : bytes) (v : sview) : Prop :=
+    match sv_mig v with
+    | Some m => (is_blank (mg_newgca m) = false -> verify gkey (mg_signing_bytes m) (mg_sig m) = true) /\
+                Forall (fun s => verify (who_signs gkey (mg_newgca m)) (as_signing_bytes s) (as_sig s) = true) (mg_servers m)
+    | None => Forall (fun s => verify gkey (as_signing_bytes s) (as_sig s) = true) (sv_servers v)
+    end.
+
+  (* everything the client has checked when staticServerSync returns without error; b is the
+     response body (respBuf) *)
+  Record accepted (mykey skey gkey : bytes) (now : Z) (b : bytes) (r : parsed) : Prop := {
+    acc_len : 712 <= Z.of_nat (length b) < 65536;
+    acc_outer : exists msg sg, sub b 0 (Z.of_nat (length b) - 64) = Some msg /\
+                  sub b (Z.of_nat (length b) - 64) (Z.of_nat (length b)) = Some sg /\
+                  verify skey msg sg = true;
+    acc_time : exists t8, sub b (Z.of_nat (length b) - 72) (Z.of_nat (length b) - 64) = Some t8 /\
+                  fresh now (le_dec t8) = true;
+    acc_key : sub b 0 32 = Some mykey;
+    acc_offset : exists off, sub b 32 36 = Some off /\ p_offset r = le_dec off;
+    acc_bitfield : sub b 36 540 = Some (p_bitfield r);
+    acc_newgca : sub b 540 572 = Some (p_newgca r);
+    acc_newid : exists nid, sub b 572 576 = Some nid /\ p_newid r = le_dec nid;
+    acc_migration : is_blank (p_newgca r) = false ->
+                  exists mb gsig, sub b 540 (Z.of_nat (length b) - 136) = Some mb /\
+                    sub b (Z.of_nat (length b) - 136) (Z.of_nat (length b) - 72) = Some gsig /\
+                    verify gkey (ascii_bytes "EquipmentMigration" ++ mykey ++ mb) gsig = true;
+    acc_list : parse_servers (S (length b)) b 576 (Z.of_nat (length b) - 136) [] = SOk (p_servers r);
+    acc_servers : Forall (fun s => verify (who_signs gkey (p_newgca r)) (as_signing_bytes s) (as_sig s) = true) (p_servers r);
+    acc_shape : Forall aserver_wf (p_servers r)
+  }.
+
+  (* invariant of a running client: well-formed, what is on disk is what is in memory, mutex free *)
+  Definition Inv (st : cstate) : Prop := cstate_wf st /\ persisted st /\ c_locked st = false.
+
+  (* what one operation (sync round or restart) can do to the client *)
+  Inductive step_effect (mykey : bytes) (st st' : cstate) : Prop :=
+  | EffKeep :           (* same GCA and id; entries kept or banned; new entries signed by the GCA *)
+      c_gca st' = c_gca st -> c_id st' = c_id st ->
+      ban_le (c_servers st) (c_servers st') -> entry_keep (c_servers st) (c_servers st') ->
+      (forall k g, smap_get k (c_servers st') = Some g ->
+          smap_get k (c_servers st) = Some g \/
+          exists s, as_key s = k /\ g = gserver_of s /\ verify (c_gca st) (as_signing_bytes s) (as_sig s) = true) ->
+      step_effect mykey st st'
+  | EffMigrate (mb gsig nid : bytes) (l : list aserver) :   (* an order for this device signed by the current GCA *)
+      verify (c_gca st) (ascii_bytes "EquipmentMigration" ++ mykey ++ mb) gsig = true ->
+      sub mb 0 32 = Some (c_gca st') -> sub mb 32 36 = Some nid -> c_id st' = le_dec nid ->
+      c_gca st' <> c_gca st -> is_blank (c_gca st') = false ->
+      Forall (fun s => verify (c_gca st') (as_signing_bytes s) (as_sig s) = true) l ->
+      c_servers st' = merge [] l ->
+      step_effect mykey st st'.
+
+  (* histories during which the GCA stays the same *)
+  Inductive same_gca_run (mykey : bytes) : cstate -> list cop -> cstate -> Prop :=
+  | SG_nil st : same_gca_run mykey st [] st
+  | SG_cons st op st1 ops st2 :
+      cstep verify v_fixed mykey st op = Some st1 -> c_gca st1 = c_gca st ->
+      same_gca_run mykey st1 ops st2 -> same_gca_run mykey st (op :: ops) st2.
+End Vocabulary.
 
 (* ---------------------------------------------------------------- sync trigger *)
 (* end of an iteration of threadedSendReports:  ticks++ ; if ticks >= 60 ||
